@@ -1,4 +1,5 @@
 import Hive.Proofs.TimedPend
+import Hive.Proofs.TimedBound
 import Hive.Gen.C18_Skel
 /-!
 # C18 — timed Queue / Executor / TaskExecutor: never early, at most once, cancel honoured
@@ -244,6 +245,65 @@ theorem C18_cancel_true_iff_prevented {c : Cfg Sh Th} (hr : Reachable c) (i : Na
     unfold cancelId
     simp [hg, hx]
 
+/-! ### the size bound -/
+
+/-- **The size bound holds.** With `WithMaxSize(n)` / `WithMaxQueueSize(n)`, `n > 0`, the heap never
+holds more than `n` elements — in every reachable configuration (`maxSize = 0`: no bound). -/
+theorem C18_size_bound {c : Cfg Sh Th} (hr : Reachable c) : c.1.maxSize = 0 ∨ c.1.heap.length ≤ c.1.maxSize := by
+  obtain ⟨m, ts, _, hreach⟩ := hr
+  exact (bnd_reach hreach).1
+
+/-- **`Add` drops only when the queue is full, and then exactly one element.** On a queue that is not
+shut down: below the bound (or without one) the new element goes in, no cancel channel is closed and
+the only new event is `sched`; at the bound exactly one element `d` leaves (the new one or an old one —
+the element in the last heap slot), its channel is closed, and the size stays.  "Dropped by the size
+bound" in the property statement therefore never applies to a queue that holds fewer than `maxSize`
+elements. -/
+theorem C18_add_drops_only_when_full (s : Sh) (due : Nat) (id : Option Nat) (kind : Kind) (tag : Nat)
+    (hs : s.isShutdown = false) :
+    ((s.maxSize = 0 ∨ s.heap.length < s.maxSize) →
+      (add s due id kind tag).1.closed = s.closed ∧ (add s due id kind tag).1.heap.length = s.heap.length + 1 ∧
+      (add s due id kind tag).1.log = .sched s.next id due :: s.log) ∧
+    ((0 < s.maxSize ∧ s.maxSize ≤ s.heap.length) →
+      ∃ d, (add s due id kind tag).1.closed = d.serial :: s.closed ∧
+        (add s due id kind tag).1.heap.length = s.heap.length ∧
+        (newElem s due id kind tag :: s.heap).Perm (d :: (add s due id kind tag).1.heap)) := by
+  refine ⟨fun hb => ?_, fun hb => add_full s due id kind tag hs hb⟩
+  obtain ⟨h1, h2, _, h4⟩ := add_within s due id kind tag hs hb
+  exact ⟨h1, h2, h4⟩
+
+/-- **Re-scheduling replaces without dropping.** In every reachable configuration with a queue that is
+not shut down: `ExecuteAt(i, …)` (both halves) for an identifier whose registered task `x` is still in
+the heap closes the channel of `x` and of nothing else, leaves the number of queued elements
+unchanged, registers `i` to the new element and has the new element in the heap — for every size
+bound and however full the queue is (a replacement does not change the number of pending tasks, so
+the bound drops neither the new task nor anybody else's). -/
+theorem C18_replace_never_drops {c : Cfg Sh Th} (hr : Reachable c) (i x due : Nat) (kind : Kind) (tag : Nat)
+    (hs : c.1.isShutdown = false) (hg : regGet c.1.reg i = some x) (hm : ∃ e ∈ c.1.heap, e.serial = x) :
+    (∀ y, y ∈ (exec2 (exec1 c.1 i) i due kind tag).closed ↔ y = x ∨ y ∈ c.1.closed) ∧
+    (exec2 (exec1 c.1 i) i due kind tag).heap.length = c.1.heap.length ∧
+    regGet (exec2 (exec1 c.1 i) i due kind tag).reg i = some c.1.next ∧
+    (∃ e ∈ (exec2 (exec1 c.1 i) i due kind tag).heap, e.serial = c.1.next) ∧
+    (exec2 (exec1 c.1 i) i due kind tag).lastRes = .ok c.1.next := by
+  obtain ⟨m, ts, _, hreach⟩ := hr
+  exact replace_within_bound c.1 i x due kind tag (bnd_reach hreach).1 hs hg hm
+
+/-- A reachable configuration with a **full** queue (bound 1) whose only element is the registered task
+of identifier 2: the hypotheses of `C18_replace_never_drops` (and the second case of
+`C18_add_drops_only_when_full`: `0 < maxSize ≤ heap.length`). -/
+def wFull : Cfg Sh Th :=
+  runSched sys (initCfg 1 [.idle, .ctl .ready [.exec 1 5 .plain 10, .exec 2 9 .plain 11]])
+    [(1, 0), (1, 0), (0, 0), (1, 0), (1, 0)]
+
+example : Reachable wFull ∧ wFull.1.isShutdown = false ∧ regGet wFull.1.reg 2 = some 1 ∧
+    (∃ e ∈ wFull.1.heap, e.serial = 1) ∧ 0 < wFull.1.maxSize ∧ wFull.1.maxSize ≤ wFull.1.heap.length :=
+  ⟨⟨1, _, ⟨by decide, by decide⟩, runSched_reach _ _ _⟩, by decide⟩
+
+/-- … and what the replacement does there: task 1 out, task 2 in, identifier 2 registered to it, one element queued. -/
+example : (exec2 (exec1 wFull.1 2) 2 13 .plain 12).heap.map (·.serial) = [2] ∧
+    regGet (exec2 (exec1 wFull.1 2) 2 13 .plain 12).reg 2 = some 2 ∧
+    (exec2 (exec1 wFull.1 2) 2 13 .plain 12).closed = [1] := by decide
+
 /-! ### witnesses -/
 
 /-- The channels the code *before* the last two fixes had closed: only those closed by a `Cancel`. -/
@@ -347,7 +407,8 @@ mutex across cancel-and-deregister-old / add-new / register-new, its wrapper tes
 under the mutex and calls the callback outside of it. -/
 open Hive.Gen.C18Skel in
 theorem C18_skeleton_add : skel_Queue_Add =
-    ["lock t.heapMutex", "if{", "unlock t.heapMutex", "if{", "}if", "return", "}if", "call heap.Push", "if{", "if{",
+    ["lock t.heapMutex", "call t.IsShutdown", "if{", "unlock t.heapMutex", "if{", "}if", "return", "}if", "call heap.Push",
+      "if{", "if{",
       "call heap.Remove", "call droppedElement.Value.closeCancel", "}if", "}if", "unlock t.heapMutex",
       "call t.waitCond.Signal", "return"] := by decide
 
@@ -360,7 +421,8 @@ theorem C18_skeleton_shutdown : skel_Queue_Shutdown =
 
 open Hive.Gen.C18Skel in
 theorem C18_skeleton_poll : skel_Queue_Poll =
-    ["for{", "lock t.heapMutex", "for{", "if{", "unlock t.heapMutex", "return", "}if", "call t.waitCond.Wait", "}for",
+    ["for{", "lock t.heapMutex", "for{", "call t.IsShutdown", "if{", "unlock t.heapMutex", "return", "}if",
+      "call t.waitCond.Wait", "}for",
       "call heap.Pop", "unlock t.heapMutex", "select{", "case recv t.ctx.Done()", "if{",
       "call polledElement.Value.Cancel", "return", "}if", "if{",
       "helper isCanceled", "if{", "continue", "}if", "return", "}if", "select{",
@@ -382,7 +444,7 @@ theorem C18_skeleton_cancel : skel_QueueElement_Cancel = ["call timedQueueElemen
 
 open Hive.Gen.C18Skel in
 theorem C18_skeleton_executor : skel_Executor_Shutdown =
-    ["for{", "}for", "helper Shutdown", "if{", "return", "}if", "call t.shutdownWG.Wait"] ∧
+    ["for{", "}for", "call t.queue.Shutdown", "if{", "return", "}if", "call t.shutdownWG.Wait"] ∧
     skel_Executor_startBackgroundWorkers =
       ["for{", "call t.shutdownWG.Add", "go", "func{", "call t.queue.Poll", "for{", "call t.queue.Poll", "}for",
         "call t.shutdownWG.Done", "}func", "}for"] := by decide
